@@ -15,6 +15,10 @@ class Unsupported(Exception):
     """the target left the supported subset: the target is UNDECIDED, never violated"""
 
 
+class MergeAbort(Exception):
+    """a non-forking (merge) attempt needed a fork or raised: fall back to forking"""
+
+
 class PathEnd(Exception):
     """the path ends here by construction (e.g. after checking a loop body)"""
 
@@ -115,6 +119,8 @@ class Ctx:
         self.depth = 0
         self.events = []  # ghost event log (store operations, sends, ...)
         self.path_info = None
+        self.nofork = 0
+        self.guards = []
 
     # ---- naming
     def fresh_name(self, hint):
@@ -136,6 +142,8 @@ class Ctx:
             raise Infeasible()
         if n == 1:
             return 0
+        if self.nofork:
+            raise MergeAbort()
         i = len(self.trace)
         if i < len(self.prefix):
             c = self.prefix[i]
@@ -145,6 +153,8 @@ class Ctx:
         return c
 
     def assume(self, b):
+        if self.guards:
+            b = z3.Implies(z3.And(self.guards), b)
         b = simp(b)
         if z3.is_true(b):
             return
@@ -168,8 +178,9 @@ class Ctx:
         self.qcount += 1
         got = self.ex.feas_cache.get(key)
         if got is None:
-            rt = self._check(cond)
-            rf = self._check(z3.Not(cond))
+            g = self.guards
+            rt = self._check(z3.And(g + [cond]) if g else cond)
+            rf = self._check(z3.And(g + [z3.Not(cond)]) if g else z3.Not(cond))
             got = (rt != z3.unsat, rf != z3.unsat)
             self.ex.feas_cache[key] = got
         return got
@@ -187,11 +198,11 @@ class Ctx:
             self.assume(c if take else z3.Not(c))
             return take
         if ft:
-            self.assume(c)
             return True
         if ff:
-            self.assume(z3.Not(c))
             return False
+        if self.guards:
+            raise MergeAbort()  # the guarded region itself is unreachable
         raise Infeasible()
 
     def is_sat(self):
